@@ -614,6 +614,12 @@ def repr_coupling(run, model, rule="C06.repr-coupling"):
                     elif any(sx[0] == "call" and fi_of_term(model, sx[1]) is rep_fi for sx in subs):
                         kinds.add("representable")
                         found = True
+                        # ... of the value that is shown, not of something else that happens to be at hand
+                        for sx in subs:
+                            if sx[0] == "call" and fi_of_term(model, sx[1]) is rep_fi:
+                                tested = [strip_sites(a_) for a_ in sx[2]] + [strip_sites(kv[1]) for kv in (sx[3] if len(sx) > 3 else ())]
+                                if tested and val not in tested and bad is None:
+                                    bad = (dn, "the representability test looks at %s, but the value shown is %s: a class, function, method or module bound to this expression is not filtered out of the message" % (", ".join(show(t_, 40) for t_ in tested), show(val, 40)))
                     elif fi.name == "visit_Name":
                         kinds.add("non-builtin")
                         found = True
@@ -1470,4 +1476,31 @@ def speculative_visit(run, model, rule="C07.speculative-visit"):
             run.violation(rule, fi.qual, "%s of the comprehension is visited unconditionally (%d such visit(s) in this handler): Python evaluates it once per item and not at all for an empty iterable, so a sub-expression that is undefined there (`1 // d` with d == 0) fails inside message generation" % (what, len(spec)), fi.loc(n), None, "speculative visit of element / filter expressions")
         else:
             run.ok(rule, fi.qual, "element and filter expressions are not visited speculatively", fi.loc())
+    return count
+
+
+def placeholder_identity(run, model, rule="C06.placeholder-identity"):
+    """The unknown marker is recognised by identity (``x is PLACEHOLDER``, ``any(x is PLACEHOLDER for ...)``).
+
+    ``PLACEHOLDER in values`` / ``x == PLACEHOLDER`` call the ``__eq__`` of the user's values: an element-wise or
+    permissive ``__eq__`` (a vector class, ``mock.ANY``) makes a known value pass for unknown -- the expression
+    silently disappears from the message -- and a strict ``__eq__`` raises inside message generation."""
+    PH = "PLACEHOLDER"
+    # containers whose elements are strings the library formatted itself: ``in`` cannot reach user code there
+    STRINGS_ONLY = {"visit_JoinedStr": "the parts of an f-string are str objects produced by format() or the marker itself"}
+    count = 0
+    for fi in sorted(model.methods("_recompute", "Visitor"), key=lambda f_: f_.qual):
+        bad = None
+        n_tests = 0
+        for sub in ast.walk(fi.node):
+            if isinstance(sub, ast.Compare):
+                sides = [sub.left] + list(sub.comparators)
+                if any(isinstance(x, ast.Name) and x.id == PH for x in sides):
+                    n_tests += 1
+                    if not all(isinstance(o, (ast.Is, ast.IsNot)) for o in sub.ops) and fi.name not in STRINGS_ONLY:
+                        bad = sub
+        if n_tests == 0:
+            continue
+        count += 1
+        run.check(bad is None, rule, fi.qual, "%d test(s) of the unknown marker, all by identity%s" % (n_tests, (" (exempt: %s)" % STRINGS_ONLY[fi.name]) if fi.name in STRINGS_ONLY else ""), "the unknown marker is tested with `%s`: that calls __eq__ of the user's values -- a permissive __eq__ makes a known value count as unknown (its expression vanishes from the message), a strict one raises while the message is built" % (src_of(bad, 60) if bad is not None else ""), fi.loc(bad) if bad is not None else fi.loc(), None, src_of(bad, 60) if bad is not None else None)
     return count
